@@ -181,6 +181,12 @@ def non_geometry_edits(spec, ds):
         if extra_dim in ds.dims and ds.sizes[extra_dim] > 1:
             yield "fewer_time_steps", ds.isel({extra_dim: slice(0, 1)})
             break
+    for name in c05.geometry_names(spec):
+        if name in ds.variables and ds[name].ndim >= 2 and min(ds[name].shape) > 1:
+            var = ds.variables[name]
+            yield "memory_layout", replace_variable(
+                ds, name, xarray.Variable(var.dims, numpy.asfortranarray(var.values), var.attrs, var.encoding))
+            break
     order = list(ds.data_vars)[::-1]
     yield "variable_order", xarray.Dataset(
         data_vars={k: ds.variables[k] for k in order},
